@@ -29,6 +29,24 @@ def rule_sent(c: Ctx) -> RuleResult:
         for g in cs.callees:
             if g.module is init.module and g not in cands and g.cls is None:
                 cands.append(g)
+    # a helper (function or private method) that appends one entry to all five tables, called only while constructing
+    group_helpers: list[Func] = []
+    for g in c.p.all_funcs():
+        if g.module is not init.module or g is init or g.name == "__init__":
+            continue
+        callers = c.cg.callers.get(g, [])
+        if not callers or any(cs.caller not in cands for cs in callers):
+            continue
+        for blk in _blocks(g.node):
+            tabs_ = []
+            for s_ in blk:
+                if isinstance(s_, ast.Expr) and isinstance(s_.value, ast.Call) and isinstance(s_.value.func, ast.Attribute) and s_.value.func.attr == "append":
+                    b_ = s_.value.func.value
+                    if isinstance(b_, ast.Attribute) and isinstance(b_.value, ast.Name) and b_.attr in LINE_TABLES:
+                        tabs_.append(b_.attr)
+            if sorted(tabs_) == sorted(LINE_TABLES) and not any(isinstance(l_, (ast.For, ast.While)) and any(x is blk[0] for x in ast.walk(l_))
+                                                                   for l_ in own_nodes(g.node)):
+                group_helpers.append(g)
 
     def appended(stmt: ast.stmt) -> str | None:
         if isinstance(stmt, ast.Expr) and isinstance(stmt.value, ast.Call) and isinstance(stmt.value.func, ast.Attribute) \
@@ -44,6 +62,15 @@ def rule_sent(c: Ctx) -> RuleResult:
     for f in cands:
         r.functions += 1
         loops = [n for n in own_nodes(f.node) if isinstance(n, (ast.For, ast.While))]
+        for cs in c.cg.sites.get(f, []):
+            if any(g in group_helpers for g in cs.callees):
+                in_loop = any(any(x is cs.node for x in ast.walk(l)) for l in loops)
+                r.add(f"append-group|{'loop' if in_loop else 'after'}|via {cs.callees[0].short}", c.where(f, cs.node), f.short, U(cs.node)[:100], "discharged",
+                      f"{cs.callees[0].short} appends one entry to all five line tables (" + ("per scanned line" if in_loop else "sentinel entry after the scan") + ")")
+                if in_loop:
+                    groups_in_loop += 1
+                else:
+                    groups_after += 1
         for blk in _blocks(f.node):
             tabs = [t for t in (appended(s) for s in blk) if t]
             if not tabs:
